@@ -107,6 +107,10 @@ class Prop:
             if op["k"] in ("set", "setlist", "list") and drop_rate and er.random() < drop_rate * 2:
                 op["env"] = [{"at": "h:any", "nth": er.choice([1, 1, 2]), "do": "dropgc",
                               "o": er.randrange(nobj)}]
+            if op["k"] == "sync" and drop_rate and er.random() < 0.5:
+                # another object (typically another partner) dies while the new link
+                # hands over its first value
+                op["env"] = [{"at": "h:any", "nth": 1, "do": "dropgc", "o": er.randrange(nobj)}]
             ops.append(op)
         return {"prop": ID, "seed": seed, "config": {"nobj": nobj}, "ops": ops}
 
@@ -218,7 +222,11 @@ class Prop:
                         and GROUPS[ta] == GROUPS[tb] \
                         and (trace["config"].get("allow_k2")
                              or not self.redundant_path(edges, (a, ta), (b, tb), GROUPS)):
-                    _, e = sut(objs[a].sync_trait, ta, objs[b], tb, op["mutual"])
+                    inflight.extend([a, b])
+                    try:
+                        _, e = sut(objs[a].sync_trait, ta, objs[b], tb, op["mutual"])
+                    finally:
+                        del inflight[-2:]
                     if e is not None:
                         raise Violation("C20.sync-raised", "sync_trait raised %r" % (e,), i)
                     self.model_sync(vals, edges, (a, ta), (b, tb), op["mutual"])
